@@ -24,6 +24,10 @@ CLAIMED = {
          "7.C11", "Coq proof of unreachability of modelled failure points + exception-class law oracle on malformed inputs"),
  "C20": ("Coq theorems for what a functional model can carry (string forms built by sorting are invariant under permutation of the members; the state-machine and permutation theorems of the set, metadata and platform models); the runtime half (hash seed, call order, repetition, argument mutation) is exercised by running one call battery in separate processes under several PYTHONHASHSEED values and call orders and comparing transcripts, plus supply-order laws on real objects",
          "7.C20", "Coq proof of permutation/history invariance on the models + multi-process transcript comparison (testing for the CPython-heap part)"),
+ "C05": ("Coq theorems on the string-level SpecifierSet model (members = first occurrences under _canonical_spec in an arbitrary permutation): conjunction incl. the empty set, invariance under permutation/duplication/spacing of clauses, & is intersection, commutative and associative incl. the override table and its error cell, & equals the parse of the concatenation, override carried, str() deterministic and reparsing to an equal set (outside the === -with-comma finding); tied to the code by stack-program correspondence runs over real Specifier/SpecifierSet objects under varying hash seeds",
+         "7.C05", "Coq proof (permutation invariance, set algebra) + extracted-model correspondence"),
+ "C06": ("Coq theorems: three-layer pre-release gate for Specifier and SpecifierSet, finals unaffected, enabling monotone, filter() is the exact filter in input order on the very input items, both fall-back cases as iff, installed=True judged by base version, outputs depend only on the latest override (induction over operation sequences), chained member filters commute; tied to the code by operation-sequence correspondence incl. item identity",
+         "7.C06", "Coq proof (state machine invariant by induction over op lists) + extracted-model correspondence"),
 }
 NA_REASON = "check not built yet in this revision (planned, see DESIGN.md section 7); nothing is claimed"
 checks, na = [], []
